@@ -469,8 +469,8 @@ impl Harness for C04 {
     }
     fn cases(&self, tier: Tier) -> u64 {
         match tier {
-            Tier::Quick => 30_000,
-            Tier::Thorough => 1_500_000,
+            Tier::Quick => 150_000,
+            Tier::Thorough => 10_000_000,
         }
     }
     fn gen(&self, rng: &mut Rng, tier: Tier) -> Case {
